@@ -273,9 +273,20 @@ def run_impl(ctx, cases, lines):
     live = [i for i, c in enumerate(cases) if c[0] == 4]
     rest = [i for i, c in enumerate(cases) if c[0] != 4]
     res = [None] * len(cases)
-    got = vc.run_lines([vh], [lines[i] for i in rest], timeout_per_batch=1500)
-    for i, g in zip(rest, got):
-        res[i] = g
+    # independent cases: several harness processes side by side (the stress runs get their own)
+    nw = 6
+    chunks = [[i for i in rest if cases[i][0] == 1]] + [[] for _ in range(nw)]
+    for n, i in enumerate(i for i in rest if cases[i][0] != 1):
+        chunks[1 + n % nw].append(i)
+    chunks = [ch for ch in chunks if ch]
+
+    def batch(ch):
+        return vc.run_lines([vh], [lines[i] for i in ch], timeout_per_batch=2400)
+
+    with ThreadPoolExecutor(max_workers=len(chunks) or 1) as ex:
+        for ch, got in zip(chunks, ex.map(batch, chunks)):
+            for i, g in zip(ch, got):
+                res[i] = g
     if live:
         # the model says what to wait for (bounded waits only; the comparison is done by the check)
         exp = vc.run_lines([ctx["drv"]], [lines[i] for i in live], timeout_per_batch=300,
